@@ -502,11 +502,16 @@ class TypesOracle(walkers.DagWalker):
         return expanded
 
     @walkers.handles(set(op.ALL_TYPES) - \
-                     set([op.SYMBOL, op.FUNCTION]) -\
+                     set([op.SYMBOL, op.FUNCTION, op.ARRAY_VALUE]) -\
                      op.QUANTIFIERS - op.CONSTANTS)
     def walk_combine(self, formula: FNode, args: List[FrozenSet[PySMTType]], **kwargs) -> FrozenSet[PySMTType]:
         #pylint: disable=unused-argument
         return frozenset(chain(*args))
+
+    @walkers.handles(op.ARRAY_VALUE)
+    def walk_array_value(self, formula: FNode, args: List[FrozenSet[PySMTType]], **kwargs) -> FrozenSet[PySMTType]:
+        # The array type itself (and its index type) need not occur in any argument
+        return frozenset(chain([self.env.stc.get_type(formula)], *args))
 
     @walkers.handles(op.SYMBOL)
     def walk_symbol(self, formula: FNode, **kwargs) -> FrozenSet[PySMTType]:
